@@ -393,9 +393,10 @@ class ComposedNode(ConfigNode):
     def _propagate_implicit_values(self):
         if not hasattr(self, '_delete'): # happens when unpickling! children are being populated before attributes are set, but its ok since we assume pickled objects are ok anyway, so no need to fix things
             return
-        if self._implicit_delete is None and self._implicit_allow_new is None and self._implicit_safe is None:
+        implicit_safe = self._get_child_implicit_safe() # the same value "_get_child_kwargs" passes to new children (a node can become unsafe by merging)
+        if self._implicit_delete is None and self._implicit_allow_new is None and implicit_safe is None:
             return
-        if self._delete is not None and self._allow_new is not None and self._safe is not None:
+        if self._delete is not None and self._allow_new is not None and implicit_safe is None:
             return
 
         for child in self._children.values():
@@ -409,11 +410,10 @@ class ComposedNode(ConfigNode):
                 if child._implicit_allow_new != self._implicit_allow_new:
                     child._implicit_allow_new = self._implicit_allow_new
                     fix = True
-            if self._safe is None:
-                if child._implicit_safe != self._implicit_safe:
-                    if child._implicit_safe is not False:
-                        child._implicit_safe = self._implicit_safe
-                        fix = True
+            if child._implicit_safe != implicit_safe:
+                if child._implicit_safe is not False:
+                    child._implicit_safe = implicit_safe
+                    fix = True
 
             if fix:
                 child._propagate_implicit_values()
